@@ -746,6 +746,9 @@ Program build_program(const GProg& g)
     p.cfg.seed      = static_cast<uint64_t>(g.seed);
     p.uni           = g.cap + g.extra;
     p.prefix        = g.prefix;
+    for (auto* t : {&g.t0, &g.t1, &g.t2})
+        if (!t->empty())
+            p.threads.push_back(*t);
     if (g.big > 0)
     {
         static const int bc[] = {0, 70, 130, 200};
@@ -764,10 +767,36 @@ Program build_program(const GProg& g)
         p.prefix.clear();
         p.prefix.push_back(fill);
         p.prefix.push_back(adv);
+        // thread 0 performs one bulk operation over the whole population, the other threads observe and mutate around it
+        Op bulk;
+        const int which = g.seed % 5;
+        bulk.code       = which == 0 ? cs::O_CLEAN : which == 1 ? cs::O_ERAR : which == 2 ? cs::O_FINDR : which == 3 ? cs::O_INSR : cs::O_AGE;
+        bulk.allow      = bx::A_BOTH;
+        bulk.flavour    = (g.seed / 5) % 4;
+        bulk.peek       = (g.seed / 20) % 2;
+        for (int k = 0; k < bc[g.big % 4]; ++k)
+            bulk.elems.push_back(cs::Elem{k, 3});
+        if (p.threads.empty())
+            p.threads.resize(1);
+        p.threads[0].insert(p.threads[0].begin(), bulk);
+        if (p.threads[0].size() > 3)
+            p.threads[0].resize(3);
+        if (p.threads.size() < 2)
+            p.threads.resize(2);
+        for (size_t t = 1; t < p.threads.size(); ++t)
+        {
+            Op ob;
+            ob.code = cs::O_OBS;
+            ob.mode = static_cast<int>((static_cast<size_t>(g.seed) + t) % 2); // size() or empty()
+            p.threads[t].insert(p.threads[t].begin(), ob);
+            if (p.threads[t].size() > 3)
+                p.threads[t].resize(3);
+        }
     }
-    for (auto* t : {&g.t0, &g.t1, &g.t2})
-        if (!t->empty())
-            p.threads.push_back(*t);
+    if (p.cfg.kind == bx::K_FIFO)
+        for (auto& t : p.threads)
+            for (auto& o : t)
+                o.flavour = (o.flavour + g.seed) % 4; // the iterator-pair overloads as often as the range forms
     for (auto& o : p.prefix)
         cs::normalize_op(o, p.uni);
     for (auto& t : p.threads)
